@@ -4,6 +4,8 @@ import (
 	"fmt"
 	"runtime/debug"
 	"sync"
+
+	"github.com/ipld/go-ipld-prime/zzsimhook"
 )
 
 // Baton hands control between the scheduler and tasks. Exactly one side runs
@@ -93,6 +95,11 @@ func (s *Sim) getCur() *Task { return s.cur }
 func (s *Sim) Run() {
 	// A real (detector-visible) edge from each task's end to the code after
 	// Run, so results may be read afterwards; tasks stay mutually unordered.
+	// library code waits for its (cooperative) locks by yielding to this scheduler
+	if zzsimhook.YieldBlocked == nil {
+		zzsimhook.YieldBlocked = s.YieldBlocked
+		defer func() { zzsimhook.YieldBlocked = nil }()
+	}
 	var wg sync.WaitGroup
 	for _, t := range s.tasks {
 		t := t
